@@ -1,0 +1,124 @@
+//! Read-only dumps of type-checker results for the dimension checks.
+//!
+//! Text format of a type:   V<name> (unification variable)  G<i> (quantified variable)
+//! P<name> (type parameter)  D[f;f;…] (dimension type, factors `v<name>^n/d`, `g<i>^n/d`,
+//! `p<name>^n/d`, `b<name>^n/d` in the stored order)  B S T (Bool String DateTime)
+//! L<t> (list)  F(t,…)->t (function)  X<name> (struct).
+//! Scheme: `C:<type>` or `Q<n>[<bound>,…]:<type>`.
+use crate::typechecker::qualified_type::Bound;
+use crate::typechecker::type_scheme::TypeScheme;
+use crate::type_variable::TypeVariable;
+use crate::typed_ast::{DType, DTypeFactor, DefineVariable, Statement, Type};
+use crate::Context;
+
+fn dtype_text(d: &DType) -> String {
+    let fs: Vec<String> = d
+        .factors()
+        .iter()
+        .map(|(f, e)| {
+            let name = match f {
+                DTypeFactor::TVar(TypeVariable::Named(n)) => format!("v{n}"),
+                DTypeFactor::TVar(TypeVariable::Quantified(i)) => format!("g{i}"),
+                DTypeFactor::TPar(n) => format!("p{n}"),
+                DTypeFactor::BaseDimension(n) => format!("b{n}"),
+            };
+            format!("{name}^{}/{}", e.numer(), e.denom())
+        })
+        .collect();
+    format!("D[{}]", fs.join(";"))
+}
+
+pub fn type_text(t: &Type) -> String {
+    match t {
+        Type::TVar(TypeVariable::Named(n)) => format!("V{n}"),
+        Type::TVar(TypeVariable::Quantified(i)) => format!("G{i}"),
+        Type::TPar(n) => format!("P{n}"),
+        Type::Dimension(d) => dtype_text(d),
+        Type::Boolean => "B".into(),
+        Type::String => "S".into(),
+        Type::DateTime => "T".into(),
+        Type::Fn(ps, r) => format!(
+            "F({})->{}",
+            ps.iter().map(type_text).collect::<Vec<_>>().join(","),
+            type_text(r)
+        ),
+        Type::Struct(info) => format!("X{}", info.name),
+        Type::List(e) => format!("L<{}>", type_text(e)),
+    }
+}
+
+pub fn scheme_text(s: &TypeScheme) -> String {
+    match s {
+        TypeScheme::Concrete(t) => format!("C:{}", type_text(t)),
+        TypeScheme::Quantified(n, qt) => format!(
+            "Q{n}[{}]:{}",
+            qt.bounds
+                .iter()
+                .map(|Bound::IsDim(t)| type_text(t))
+                .collect::<Vec<_>>()
+                .join(","),
+            type_text(&qt.inner)
+        ),
+    }
+}
+
+/// Kind, name and inferred type scheme of a checked statement.
+pub fn statement_text(s: &Statement) -> String {
+    match s {
+        Statement::Expression(e) => format!("expr|{}", scheme_text(&e.get_type_scheme())),
+        Statement::DefineVariable(DefineVariable {
+            name, type_scheme, ..
+        }) => format!("let|{name}|{}", scheme_text(type_scheme)),
+        Statement::DefineFunction {
+            function_name,
+            fn_type,
+            ..
+        } => format!("fn|{function_name}|{}", scheme_text(fn_type)),
+        Statement::DefineDimension(..) => "dim".into(),
+        Statement::DefineBaseUnit {
+            name, type_scheme, ..
+        } => format!("unit|{name}|{}", scheme_text(type_scheme)),
+        Statement::DefineDerivedUnit {
+            name, type_scheme, ..
+        } => format!("unit|{name}|{}", scheme_text(type_scheme)),
+        Statement::ProcedureCall { .. } => "proc".into(),
+        Statement::DefineStruct(..) => "struct".into(),
+    }
+}
+
+/// Type scheme the checker's environment holds for an identifier (`N|…` value, `F|…` function).
+pub fn identifier_text(ctx: &Context, name: &str) -> Option<String> {
+    if let Some((sig, _)) = ctx.typechecker.lookup_function(name) {
+        return Some(format!("F|{}", scheme_text(&sig.fn_type)));
+    }
+    ctx.typechecker
+        .lookup_identifier_type(name)
+        .map(|s| format!("N|{}", scheme_text(&s)))
+}
+
+/// The dimension registry: `base <name>` / `derived <name> <b…^n/d;…>` in definition order.
+pub fn dimension_table(ctx: &Context) -> Vec<String> {
+    let reg = ctx.typechecker.registry();
+    ctx.dimension_names()
+        .iter()
+        .map(|n| {
+            if reg.is_base_dimension(n) {
+                format!("base {n}")
+            } else {
+                let br = reg
+                    .get_base_representation_for_name(n)
+                    .expect("registered dimension");
+                let fs: Vec<String> = br
+                    .iter()
+                    .map(|f| format!("b{}^{}/{}", f.0, f.1.numer(), f.1.denom()))
+                    .collect();
+                format!("derived {n} {}", fs.join(";"))
+            }
+        })
+        .collect()
+}
+
+/// Counter of the checker's fresh-type-variable generator (next variable is `T<counter>`).
+pub fn name_counter(ctx: &Context) -> u64 {
+    ctx.typechecker.verif_name_counter()
+}
